@@ -109,8 +109,10 @@ def gen_build_spec(g, spec, box, kinds, est_size=0.6):
                 d2 = round(min(0.6 * span2, d + g.uniform(0.3, 0.8) * (b2 - b) * est_size, 0.45 * min(box) - tol), 3)
                 items.append({"kind": "dist", "a": a, "b": b2, "d": d2, "tol": tol})
         if "pers" in chosen:
-            items.append({"kind": "pers", "model": "WCM", "lp": round(g.uniform(0.8, 4.0), 2), "start": 0,
-                          "stop": nres - 1})
+            # (a third of the chains are very flexible: the sampled end-to-end distances then reach down to the lower end
+            # of the allowed range)
+            lp = round(g.uniform(0.8, 4.0), 2) if g.random() < 0.65 else round(g.uniform(0.15, 0.4), 2)
+            items.append({"kind": "pers", "model": "WCM", "lp": lp, "start": 0, "stop": nres - 1})
         if items:
             geo = [it for it in items if it["kind"] in ("sphere", "cylinder", "rectangle")]
             if geo and g.random() < 0.3:
